@@ -10,7 +10,13 @@
 (* command the driver's clock creeps forward by a second per reading.      *)
 (*   last    continuous_queries.last_processed_time (None = NULL)          *)
 (*   active  continuous_queries.is_active                                  *)
-(*   fault   the source measurement cannot be read (DuckDB query fails)    *)
+(*   fault   "query": the source measurement cannot be read (the DuckDB    *)
+(*           query fails, zero rows); "write": the query returns a row but *)
+(*           the write to the ArrowBuffer fails (NULL time value) -- the   *)
+(*           failure point AFTER rows exist; "none"                        *)
+(*   qv      shape of the query: 0 = no time column (rows are stamped by   *)
+(*           executeAggregation with the window start), 1 = the query      *)
+(*           selects its own time column                                   *)
 (*   log     continuous_query_executions, in id order                      *)
 (* ExecuteCQ (the body of the scheduler tick, cq_scheduler.go:executeJob)  *)
 (* and handleExecute as written:                                           *)
@@ -36,6 +42,7 @@ CONSTANTS MaxClock,   \* clock bound (ticks)
           Emit        \* TRUE: print one TRACE line per complete history
 
 Hour == 720           \* one hour in units of 5 s
+Interval == 2         \* the query's interval ("10s"): a window of >= 2 intervals is a catch-up window
 None == -9999
 Clock0 == 4          \* the clock starts here so that explicit bounds can lie before the first execution
 
@@ -45,7 +52,7 @@ view == <<clock, last, active, fault, qv, log, Len(hist)>>
 
 PR == INSTANCE CQProp WITH Period <- 7
 
-Init == /\ clock = Clock0 /\ last = None /\ active = TRUE /\ fault = FALSE /\ qv = 0
+Init == /\ clock = Clock0 /\ last = None /\ active = TRUE /\ fault = "none" /\ qv = 0
         /\ log = <<>> /\ hist = <<>>
 
 CanCmd == Len(hist) < MaxCmds
@@ -65,19 +72,21 @@ WinEnd(re)   == IF re # None THEN re ELSE clock
 Outcome(s, e, dry) == IF ~active THEN "inactive"
                       ELSE IF s >= e THEN "rejected"
                       ELSE IF dry THEN "dry"
-                      ELSE IF fault THEN "failed" ELSE "ok"
+                      ELSE IF fault = "query" THEN "failed" ELSE IF fault = "write" THEN "failedw" ELSE "ok"
 
 ExecW(name, kind, rs, re, dry, w) ==
     LET s == WinStart(rs)
         e == WinEnd(re)
         o == Outcome(s, e, dry)
     IN /\ CanCmd
-       /\ hist' = Append(hist, H(name, rs, IF w # None THEN w ELSE re, o, IF o \in {"ok", "failed", "dry"} THEN s ELSE None,
-                                                  IF o \in {"ok", "failed", "dry"} THEN e ELSE None))
-       /\ log' = IF o \in {"ok", "failed"}
+       /\ hist' = Append(hist, H(name, rs, IF w # None THEN w ELSE re, o, IF o \in {"ok", "failed", "failedw", "dry"} THEN s ELSE None,
+                                                  IF o \in {"ok", "failed", "failedw", "dry"} THEN e ELSE None))
+       /\ log' = IF o \in {"ok", "failed", "failedw"}
                    THEN Append(log, [kind |-> kind, xs |-> rs # None, xe |-> re # None,
-                                     status |-> o, s |-> s, e |-> e,
-                                     label |-> IF o = "ok" THEN s ELSE None])   \* executeAggregation: windowMicro := startTime
+                                     status |-> IF o = "ok" THEN "ok" ELSE "failed", fp |-> o, s |-> s, e |-> e,
+                                     own |-> qv = 1, wide |-> e - s >= 2 * Interval,
+                                     \* executeAggregation: windowMicro := startTime, whatever the width of the window
+                                     label |-> IF o = "ok" /\ qv = 0 THEN s ELSE None])
                    ELSE log
        /\ last' = IF o = "ok" THEN e ELSE last                                   \* recordExecutionAndUpdateTime
        /\ UNCHANGED <<clock, active, fault, qv>>
@@ -90,8 +99,12 @@ ManualRange    == \E a \in Points, b \in Points : a < b /\ Exec("range", "manual
 ManualStart    == \E a \in Points : Exec("from", "manual", a, None, FALSE)
 ManualEnd      == \E b \in Points : Exec("until", "manual", None, b, FALSE)
 
-SetFault == /\ CanCmd /\ fault' = ~fault
-            /\ hist' = Append(hist, H(IF fault THEN "heal" ELSE "break", None, None, "none", None, None))
+SetFault == /\ CanCmd
+            /\ \/ fault = "none" /\ \E f \in {"query", "write"} :
+                     /\ fault' = f
+                     /\ hist' = Append(hist, H(IF f = "query" THEN "break" ELSE "breakw", None, None, "none", None, None))
+               \/ fault # "none" /\ fault' = "none"
+                     /\ hist' = Append(hist, H("heal", None, None, "none", None, None))
             /\ UNCHANGED <<clock, last, active, qv, log>>
 
 \* handleUpdate: the UPDATE statement does not mention last_processed_time
@@ -116,7 +129,7 @@ Next == \/ \E d \in 1..MaxStep, w \in 1..Weight : Tick(d, w)
 Spec == Init /\ [][Next]_vars
 
 -----------------------------------------------------------------------------
-TypeOK == /\ clock \in 0..MaxClock /\ active \in BOOLEAN /\ fault \in BOOLEAN /\ qv \in {0, 1}
+TypeOK == /\ clock \in 0..MaxClock /\ active \in BOOLEAN /\ fault \in {"none", "query", "write"} /\ qv \in {0, 1}
           /\ last \in Int
 
 OkIdx == {i \in 1..Len(log) : log[i].status = "ok"}
@@ -136,7 +149,7 @@ StartAtCursor ==
 CursorIsLastOk == IF OkIdx = {} THEN last = None ELSE last = log[Max(OkIdx)].e
 
 \* output rows are labelled with the start of the window they summarise
-LabelIsStart == \A i \in OkIdx : log[i].label = log[i].s
+LabelIsStart == \A i \in OkIdx : ~log[i].own => log[i].label = log[i].s
 
 \* successive successful scheduled windows are contiguous (hence non-overlapping) as long as no
 \* successful manual execution with an explicit bound lies between them
@@ -161,8 +174,8 @@ SchedNoGap ==
             \E k \in (i+1)..(j-1) : log[k].status = "ok" /\ log[k].s <= t /\ t < log[k].e
 
 \* refinement: the execution log is accepted by the property-level module CQProp
-PropEv(i) == [kind |-> log[i].kind, status |-> log[i].status, s |-> log[i].s, e |-> log[i].e, xs |-> log[i].xs \/ log[i].xe,
-              rows |-> IF log[i].status = "ok" THEN <<[t |-> log[i].label, n |-> 0]>> ELSE <<>>]
+PropEv(i) == [kind |-> log[i].kind, status |-> log[i].status, s |-> log[i].s, e |-> log[i].e, xs |-> log[i].xs \/ log[i].xe, own |-> log[i].own,
+              rows |-> IF log[i].status = "ok" /\ ~log[i].own THEN <<[t |-> log[i].label, n |-> 0]>> ELSE <<>>]
 RECURSIVE Fold(_, _)
 Fold(i, st) == IF i > Len(log) THEN TRUE
                ELSE /\ PR!Clauses(st, PropEv(i), FALSE) = {}
